@@ -1,4 +1,5 @@
 import NfcVerif.Lemmas.TlvSync
+import NfcVerif.Lemmas.TlvRetry
 /-!
 # C02 - an interrupted NDEF write never leaves a corrupt message (Type 1 and Type 2 Tag)
 
@@ -53,6 +54,49 @@ theorem t12_prefix_threshold (u : Nat) (hu : 0 < u) (m m' : Bytes) (hl : m.lengt
     ∃ j, ∀ x : Nat, (apply m ((diffUnits u m m').take k))[x]? = if x < j * u then m'[x]? else m[x]? :=
   prefix_threshold u hu m m' hl k
 
+/-! ## A lost command and a retry on the same NDEF object
+
+The memory reader keeps the image it wants on the tag (`_data_in_cache`) and the image it
+believes to be there (`_data_from_tag`); `synchronize()` sends the units in which they differ. -/
+
+/-- **What the cache may assume about the tag.**  `_write_to_tag` records a unit in
+`_data_from_tag` only after its command succeeded; hence when command `j` of a `synchronize()`
+is lost (the exception reaches the application) the recorded image still equals the content of
+the tag, for every unit list, cache and fault position.  (With the two statements swapped this
+is false - see the example below - and a later write computes its commands against an image the
+tag does not hold.) -/
+theorem t12_cache_coherent (u : Nat) (cache : Bytes) (is : List Nat) (j : Nat) (b : Bytes) :
+    (syncLost u cache is j (b, b)).1 = (syncLost u cache is j (b, b)).2 :=
+  syncLost_coherent u cache is j b
+
+/-- **Retry after a lost command.**  Command `k` of the write of `d1` is lost (`failedWrite`: tag
+content `T` = the acknowledged commands, cache `C` = the image of the interrupted phase).  The
+application then assigns `d2` (the same or another message, any length up to the capacity) on the
+SAME object: the assignment succeeds, afterwards a fresh reader sees exactly `d2`, and after every
+prefix of its commands (a second interruption) the tag is unchanged (`T`, itself old / empty by
+`t12_cut_safe`), or shows an empty message, or shows `d2` - for every well-formed image, every `k`,
+every alignment and unit. -/
+theorem t12_retry_cut_safe (c : Cfg) (m : Bytes) (L : Layout) (d1 d2 : Bytes) (k : Nat) (T C : Bytes)
+    (hread : readNdef c m = .ok (some L)) (hwf : WF c m L)
+    (hcap1 : (d1.length : Int) ≤ L.cap) (hcap2 : (d2.length : Int) ≤ L.cap)
+    (hfail : failedWrite c m L d1 k = some (T, C)) :
+    (writeCmdsFrom c T C L d2).res = .ok ()
+    ∧ readNdef c (apply T (writeCmdsFrom c T C L d2).cmds) = .ok (some { L with ndef := d2 })
+    ∧ ∀ j, apply T ((writeCmdsFrom c T C L d2).cmds.take j) = T
+        ∨ readNdef c (apply T ((writeCmdsFrom c T C L d2).cmds.take j)) = .ok (some { L with ndef := [] })
+        ∨ readNdef c (apply T ((writeCmdsFrom c T C L d2).cmds.take j)) = .ok (some { L with ndef := d2 }) := by
+  have hr := (readNdef_some c m L).1 hread
+  obtain ⟨hTl, hCl, hTb, hCb⟩ := failedWrite_state c m L d1 k T C hr hwf hcap1 hfail
+  obtain ⟨h1, h2, h3⟩ := retry_safe c m T C L d2 hr hwf hcap2 hTl hCl hTb hCb
+  refine ⟨h1, (readNdef_some c _ _).2 h2, fun j => ?_⟩
+  rcases h3 j with e | e | e
+  · exact Or.inl e
+  · exact Or.inr (Or.inl ((readNdef_some c _ _).2 e))
+  · exact Or.inr (Or.inr ((readNdef_some c _ _).2 e))
+
+/-- a fresh object is the special case `T = C = m` -/
+example (c : Cfg) (m : Bytes) (L : Layout) (d : Bytes) : writeCmdsFrom c m m L d = writeCmds c m L d := rfl
+
 /-! ## Non-vacuity and the two straddling alignments
 
 Type 2 Tag, 304 byte.  `cxM`: one NULL TLV in front, NDEF TLV at offset 17: length bytes at
@@ -88,6 +132,24 @@ example : readNdef t2Cfg (apply zM ((setOctets t2Cfg zM zL cxD).cmds.take
       ((setOctets t2Cfg zM zL cxD).cmds.length - 1))) = .ok (some { zL with ndef := [] })
     ∧ ((setOctets t2Cfg zM zL cxD).cmds.drop ((setOctets t2Cfg zM zL cxD).cmds.length - 2)).map Prod.fst = [16, 20] := by
   decide +kernel
+
+/-- non-vacuity of the retry theorem: command 30 of the 68 is lost, the tag then shows an empty
+message; the retry of the same message needs 38 commands (the 30 acknowledged ones are not repeated) -/
+example : ((failedWrite t2Cfg cxM cxL cxD 30).map fun p =>
+      (decide (readNdef t2Cfg p.1 = .ok (some { cxL with ndef := [] })),
+       (writeCmdsFrom t2Cfg p.1 p.2 cxL cxD).cmds.length)) = some (true, 38) := by
+  decide +kernel
+
+/-- with `_data_from_tag` updated BEFORE the command is sent, a lost command is believed stored:
+belief and tag differ (unit size 4, cache differs from the tag in unit 1, its command is lost) -/
+example :
+    let tag := [0, 0, 0, 0, 1, 1, 1, 1]
+    let cache := [0, 0, 0, 0, 9, 9, 9, 9]
+    -- correct order: nothing recorded
+    syncLost 4 cache [0, 1] 0 (tag, tag) = (tag, tag)
+    -- swapped order would record the unit although the tag never got it
+    ∧ writeAt tag 4 (sliceN cache 4 8) ≠ tag := by
+  decide
 
 /-! ## The code as found (before fixes/C02) was not cut safe (F2)
 
